@@ -389,6 +389,9 @@ def run_case(case, ctx):
                 _try(lambda: r(x, big))
                 _try(lambda: r(big, x))
             _try(lambda: xa_big(big))
+            _try(lambda: np.less(x, big))
+            _try(lambda: np.greater_equal(big, x))
+            _try(lambda: np.not_equal(Fxp([cx, cx], fx[0], fx[1], fx[2], raw=True), big))
         ctx.floor_hit(('cmp-integer-beyond-doubles',))
     # NumPy numbers on the left (NumPy hands the relation to the fixed-point object), and the NumPy functions themselves
     if i % 2 == 0:
